@@ -42,6 +42,7 @@ class TrackedLock:
         self.holders = holders
         self.log = log
         self.clock = clock
+        self.on_release: Any = None
 
     def acquire(self) -> bool:
         ok = self.inner.acquire()
@@ -53,6 +54,8 @@ class TrackedLock:
     def release(self) -> None:
         self.holders.pop(self.me, None)
         self.log.append(("rel", self.me, self.clock()))
+        if self.on_release is not None:
+            self.on_release()
         self.own_release = True
         try:
             self.inner.release()
@@ -98,7 +101,8 @@ def gen_progs(r: random.Random, nth: int, max_calls: int = 4) -> list[list[dict[
 
 
 def run_file_case(lock_kind: str, progs: list[list[dict[str, Any]]], seed: int, tmp: str, plan: sysfi.Plan | None = None,
-                  grace: int | None = 30, schedule: list[int] | None = None, pct: int | None = None, tag: str = "") -> dict[str, Any]:
+                  grace: int | None = 30, schedule: list[int] | None = None, pct: int | None = None, tag: str = "",
+                  clock: str = "sleepers") -> dict[str, Any]:
     """Run the programs (one backend object + lock object per thread) under sched+sysfi."""
     warnings.simplefilter("ignore")
     path = os.path.join(tmp, "jf_%d_%d%s.log" % (os.getpid(), seed, tag))
@@ -110,6 +114,7 @@ def run_file_case(lock_kind: str, progs: list[list[dict[str, Any]]], seed: int, 
     plan = plan or sysfi.Plan()
     plan.chunks = plan.chunks or 1
     sys_ = sysfi.Sys(s, plan, r)
+    sys_.time.mode = clock
     undo = sysfi.install(sys_)
     holders: dict[int, int] = {}
     locklog: list[Any] = []
@@ -121,6 +126,10 @@ def run_file_case(lock_kind: str, progs: list[list[dict[str, Any]]], seed: int, 
             b = JournalFileBackend(path, lock_obj=lk)
             b._lock = TrackedLock(lk, t, holders, locklog, lambda: s.clock)
             b._lock.watch_forced_release()
+            if clock == "handover" and grace is not None:
+                def bump(g: float = float(grace)) -> None:
+                    sys_.time.now += 0.4 * g
+                b._lock.on_release = bump
             backends.append(b)
         owner: dict[str, Any] = {"t": None}  # who created the lock file that exists now (tracked at the system call)
 
@@ -138,9 +147,21 @@ def run_file_case(lock_kind: str, progs: list[list[dict[str, Any]]], seed: int, 
         sys_.hooks["lock_created"] = lock_created
         sys_.hooks["renamed"] = renamed
 
+        finished: set[int] = set()
+
         def body(t: int) -> Any:
             def f() -> None:
+                try:
+                    run_prog(t)
+                finally:
+                    finished.add(t)
+
+            def run_prog(t: int) -> None:
                 for act in progs[t]:
+                    if act.get("after_victim"):
+                        # survivors' continuation: starts only once thread 0 is dead (or, in a dry run, done)
+                        while (plan.crashed is None) if plan.thread is not None else (0 not in finished):
+                            s.yield_(t, blocked=True)
                     rec: dict[str, Any] = {"t": t, "a": act["a"], "inv": s.clock}
                     calls.append(rec)
                     try:
@@ -380,8 +401,10 @@ def _worker(args: tuple[str, list[tuple[int, list[Any], int, int | None]], str])
     res = []
     for seed, progs, chunks, pct in cases:
         plan = sysfi.Plan(chunks=chunks)
+        # every third case: a busy lock under the hand-over clock (many short holders, one long waiter)
+        clock = "handover" if seed % 3 == 0 else "sleepers"
         try:
-            out = run_file_case(lock_kind, progs, seed, tmp, plan=plan, pct=pct)
+            out = run_file_case(lock_kind, progs, seed, tmp, plan=plan, pct=pct, clock=clock, grace=5)
         except Exception as e:  # noqa: BLE001
             import traceback
             res.append({"seed": seed, "kind": "infra", "why": "%s %s" % (e, traceback.format_exc()[-300:])})
@@ -393,7 +416,7 @@ def _worker(args: tuple[str, list[tuple[int, list[Any], int, int | None]], str])
         reads = [c for c in out["calls"] if c["a"] == "read"]
         apps = [c for c in out["calls"] if c["a"] == "append"]
         overlap = any(rd["inv"] < ap.get("ret", 10**9) and ap["inv"] < rd.get("ret", 10**9) and rd["t"] != ap["t"] for rd in reads for ap in apps)
-        res.append({"seed": seed, "kind": "violation" if probs else "ok", "probs": probs, "progs": progs, "chunks": chunks, "pct": pct,
+        res.append({"seed": seed, "kind": "violation" if probs else "ok", "probs": probs, "progs": progs, "chunks": chunks, "pct": pct, "clock": clock,
                     "trace": out["trace"], "overlap": overlap, "n_events": len(out["events"])})
     return res
 
@@ -422,7 +445,8 @@ def explore(chk: core.Check, n: int, tag: str = "") -> None:
             elif rec["kind"] == "violation":
                 p = rec["probs"][0]
                 chk.violation({"lock": lock_kind, "kind": p["kind"], "after_crash": False},
-                              {"lock": lock_kind, "progs": rec["progs"], "seed": rec["seed"], "chunks": rec["chunks"], "pct": rec["pct"], "schedule": rec["trace"]},
+                              {"lock": lock_kind, "progs": rec["progs"], "seed": rec["seed"], "chunks": rec["chunks"], "pct": rec["pct"], "schedule": rec["trace"],
+                               "clock": rec.get("clock", "sleepers")},
                               "%s lock: %s" % (lock_kind, "; ".join(x["why"] for x in rec["probs"][:2])))
             else:
                 chk.count("infra")
@@ -441,10 +465,10 @@ def main(chk: core.Check) -> int:
     quick = chk.tier == "quick"
     try:
         core.ensure_driver()
-        pure_differential(chk, 600 if quick else 20000)
+        pure_differential(chk, 3000 if quick else 40000)
     except core.DriverBroken as e:
         chk.broke("correspondence", {"driver": str(e)[:600]})
-    explore(chk, 150 if quick else 4000)
+    explore(chk, 600 if quick else 8000)
     chk.assumptions += ["O_APPEND writes land at the end of the file; rename / symlink / open(O_EXCL) are atomic (kernel semantics, trusted)",
                         "no takeover of a lock whose holder is alive (the virtual clock only advances while every live thread sleeps)",
                         "JSON validity of a line is decided by Python's json module"]
@@ -453,7 +477,8 @@ def main(chk: core.Check) -> int:
 
 def replay(chk: core.Check, path: str) -> int:
     w = json.load(open(path))["witness"]
-    out = run_file_case(w["lock"], w["progs"], w["seed"], chk.tmp, plan=sysfi.Plan(chunks=w.get("chunks", 1)), schedule=w.get("schedule"), pct=w.get("pct"))
+    out = run_file_case(w["lock"], w["progs"], w["seed"], chk.tmp, plan=sysfi.Plan(chunks=w.get("chunks", 1)), schedule=w.get("schedule"), pct=w.get("pct"),
+                        clock=w.get("clock", "sleepers"), grace=5)
     probs = judge(out, len(w["progs"]))
     if probs:
         print("REPRODUCED: %s" % probs[0]["why"])
